@@ -92,6 +92,11 @@ func canonWrite(sb *strings.Builder, v reflect.Value, o *canonOpts) {
 			if r, ok := canonTypeName[id]; ok {
 				id = r
 			}
+			// the ports flatten Go's internal/bytealg package into prefixed names: bytealg_IndexByte ≡ bytealg.IndexByte
+			if rest, ok := strings.CutPrefix(id, "bytealg_"); ok && rest != "" {
+				sb.WriteString("Sel{bytealg . " + rest + "}")
+				return
+			}
 			sb.WriteString(id)
 			return
 		case "BasicLit":
